@@ -59,6 +59,51 @@ func verifRingDistinctSections(r *ketamaHashring) {
 	}
 }
 
+func verifRingRep(c byte, n int) string {
+	b := make([]byte, n)
+	for i := range b {
+		b[i] = c
+	}
+	return string(b)
+}
+
+// VerifC18LongLabels: placement is deterministic for series whose labels exceed the 1 KB fast-path buffer of
+// labelpb.HashWithPrefix (streaming digest branch): asking twice, and asking for another long series in between,
+// returns the same endpoint. KIND 0 = hashmod, 1 = ketama.
+func VerifC18LongLabels() {
+	n := verifIntRange("nodes", 2, verifParam("N", 3))
+	eps := verifRingEndpoints(n, 0)
+	var ring Hashring
+	var err error
+	if verifParam("KIND", 0) == 0 {
+		ring, err = newSimpleHashring(eps)
+	} else {
+		var k *ketamaHashring
+		k, err = newKetamaHashring(eps, 1, 1)
+		if err == nil {
+			verifRingDistinctSections(k)
+		}
+		ring = k
+	}
+	verifAssert(err == nil, "ring-built")
+	if err != nil {
+		return
+	}
+	long := verifRingRep('x', verifParam("LEN", 600))
+	ts := &prompb.TimeSeries{Labels: []labelpb.ZLabel{{Name: "a", Value: long + verifHashKey("series", 1, "xyz")}, {Name: "b", Value: long}}}
+	other := &prompb.TimeSeries{Labels: []labelpb.ZLabel{{Name: "a", Value: long + verifHashKey("other", 1, "xyz")}, {Name: "c", Value: long}}}
+	e1, g1 := ring.GetN("t", ts, 0)
+	verifAssert(g1 == nil, "getn-ok")
+	if verifIntRange("between", 0, 1) == 1 {
+		_, g := ring.GetN("t", other, 0)
+		verifAssert(g == nil, "getn-ok")
+	}
+	e2, g2 := ring.GetN("t", ts, 0)
+	verifAssert(g2 == nil, "getn-ok")
+	verifAssert(e1.Address == e2.Address, "long-series-placement-deterministic")
+	verifReach("end")
+}
+
 // VerifC18Ketama: replicas pairwise distinct; independent of the endpoint listing order; zone balanced.
 func VerifC18Ketama() {
 	n := verifIntRange("nodes", 1, verifParam("N", 3))
